@@ -4,3 +4,4 @@ pub mod wire;
 pub mod fold;
 pub mod tok;
 pub mod sess;
+pub mod filt;
